@@ -8,7 +8,8 @@ Written from the grammar (the ladder levels and the operand slots of each constr
 * an *infix* construct (left-assoc binary operators, `**`, comparison chains, n-ary `and` / `or`, `… if … else …`,
   and the postfix trailers `.name`, `[…]`, `(…)`) may
   continue a phrase when the slot accepts the construct's level AND the construct's left slot accepts what has been
-  parsed so far (`ll`, the ladder level of the left operand; a parenthesised group or an atom is at level `ATOM`).
+  parsed so far (`ll`, the ladder level of the left operand; a name is at level `ATOM`, a parenthesised group or an
+  integer literal at the pseudo-level `GRP` above it).
 
 Total by fuel (every function recurses structurally on its first argument).  No imports besides the grammar.
 
